@@ -195,6 +195,15 @@ func (m *clm) addArg(t string, i int, passthrough bool) bool {
 				m.fault(&Fault{Raw: true, Token: t, At: i, Span: 1, Loose: []flags.ErrorType{flags.ErrMarshal}})
 				return false
 			}
+		} else if a.Type.IsMap() {
+			// a map positional takes one key:value token and leaves the queue like any non-slice field
+			if _, err := Apply(Empty(a.Type.RT), a.BaseN(), t); err == ErrGrey {
+				m.res.Grey = true
+			} else if err == ErrReject {
+				m.fault(&Fault{Raw: true, Token: t, At: i, Span: 1, Loose: []flags.ErrorType{flags.ErrMarshal}})
+				return false
+			}
+			m.queue = m.queue[1:]
 		} else {
 			v := ConvScalar(a.Type.RT, a.BaseN(), t)
 			if v.Class == Grey {
